@@ -117,6 +117,13 @@ CLAIMED = {
         "Unit angular grids come from AngularGrid(cache=False) (decided by C02/C12); exact ties of a radial node with a sector boundary are accepted either way (docstring ambiguous); Ahrens-Beylkin degrees with defective data files are kept out of the alphabet.",
         "DESIGN.md 3/C05",
     ),
+    "C07": (
+        "exploration",
+        "deviation-bounded product (bound 2 quick / 3 thorough) of molecule (1-4 atoms) x constructor (direct, from_size, from_preset, from_pruned) x radial spec (one grid, per-atom list, per-element dict, default) x aim weights (Becke, Hirshfeld, array) x store x rotate, each molecular grid compared array by array with atomic grids built by hand from the same arguments and aim weights evaluated by the check; every configuration paired with its store on/off partner; complete product 17 presets x 8 molecules x 5 exponents for the end-to-end charge clause",
+        "All option combinations within the deviation bound are enumerated (about 300 grids, every array compared exactly), so argument fan-out of each classmethod (rotate, store, per-atom lists, dict keyed by atomic number) is decided; the end-to-end clause is a complete product over its alphabet.",
+        "AtomGrid and Becke/Hirshfeld are decided by C05/C06. The 1% clause applies literally (rgrid=None) to sector-radius presets; shell-count presets prescribe a radial size the default grid never has (rgrid=None is refused), they are built with the default kind at the prescribed size and held to a 10% sanity bound only (observed errors in the evidence).",
+        "DESIGN.md 3/C07",
+    ),
 }
 
 NOT_YET = "check not built yet in this session (work in progress; see DESIGN.md section 8 for the order of work)"
